@@ -1,8 +1,11 @@
 #!/bin/bash
-# tools/try_refactor.sh <dir with patch.diff> [properties...]  - a behaviour-preserving refactoring: every check must stay at exit 0
+# tools/try_refactor.sh <dir with patch.diff> [properties...]  - a behaviour-preserving rewrite: every check must stay at exit 0.
+# Applies the patch in a scratch worktree of /repo (never in /repo), runs the suite, runs the quick checks with VERIF_REPO,
+# removes the worktree.  Prints one line per property; a failing replay is copied to <dir>/alarm-<property>.json.
 set -u
-R=$1; shift
+R=$(cd "$1" && pwd); shift
 PROPS=${@:-C01 C02 C03 C04 C05 C06 C07 C08 C09 C10 C11 C12 C13 C14 C15 C16 C17 C18}
+ROOT=${VERIF_ROOT:-/verif}
 export GOFLAGS=-mod=mod GOPROXY=off GOSUMDB=off GOTOOLCHAIN=local
 W=/tmp/refwt-$$
 git -C /repo worktree add -q --detach $W HEAD || exit 2
@@ -11,8 +14,8 @@ trap 'git -C /repo worktree remove --force $W >/dev/null 2>&1; rm -rf $W' EXIT
 ( cd $W && go build ./... && go test -vet=off -count=1 ./... 2>&1 | grep -v '^ok\|no test files' | head -5 )
 echo "suite: done (lines above, if any, are failures)"
 for P in $PROPS; do
-  out=$(cd /verif && VERIF_REPO=$W timeout 1500 bin/check $P 2>&1)
+  out=$(cd $ROOT && VERIF_REPO=$W timeout 1800 bin/check $P 2>&1)
   rc=$?
-  echo "== $P rc=$rc: $(echo "$out" | grep -E 'VIOLATION|KNOWN|INFRA|DRIFT' | head -3 | tr '\n' ' ') $(echo "$out" | tail -1)"
-  if [ $rc -ne 0 ]; then echo "$out" | grep -A6 'first rejected' | sed -n 2,6p; cp /verif/replays/$P-quick-1.json /tmp/sr/$(basename $(dirname $R))-$(basename $R)-$P.json 2>/dev/null; fi
+  echo "== $P rc=$rc: $(echo "$out" | grep -E 'VIOLATION|KNOWN|INFRA|DRIFT' | head -3 | cut -c1-160 | tr '\n' ' ') $(echo "$out" | tail -1)"
+  if [ $rc -ne 0 ]; then echo "$out" | grep -A6 'first rejected' | sed -n 2,6p | cut -c1-300; cp $ROOT/replays/$P-quick-1.json $R/alarm-$P.json 2>/dev/null; fi
 done
